@@ -205,7 +205,7 @@ theorem stakes_move {s s' : State} {id : PoolId} {p q : Pool} (a : Addr) (g : Fa
 
 theorem stakes_stake {s s' : State} {sender id denom amt} (hs : Stakes s)
     (h : stepStake s sender id denom amt = .ok s') : Stakes s' := by
-  obtain ⟨p, s1, s2, p1, rewards, debt, s3, _, hp, _, _, _, h1, hu, _, h3, rfl⟩ := stepStake_ok h
+  obtain ⟨p, s1, s2, p1, rewards, debt, s3, _, _, hp, _, _, _, h1, hu, _, h3, rfl⟩ := stepStake_ok h
   have b1 := (sendAll_ok h1).1
   have ok := updatePool_ok hu
   have b3 := (payRewards_ok h3).1
@@ -241,7 +241,7 @@ theorem unstakePool_ok {s s1 : State} {id : PoolId} {p p1 : Pool} {amt : Nat} (h
 
 theorem stakes_unstake {s s' : State} {sender id denom amt} (hs : Stakes s)
     (h : stepUnstake s sender id denom amt = .ok s') : Stakes s' := by
-  obtain ⟨p, f, s1, p1, s2, rewards, debt, s3, _, hp, _, hf0, hamt, hamt2, hbr, h2, _, h3, rfl⟩ := stepUnstake_ok h
+  obtain ⟨p, f, s1, p1, s2, rewards, debt, s3, _, _, hp, _, hf0, hamt, hamt2, hbr, h2, _, h3, rfl⟩ := stepUnstake_ok h
   have b2 := (sendAll_ok h2).1
   have b3 := (payRewards_ok h3).1
   obtain ⟨hpl, hfm, hlk⟩ := unstakePool_ok hamt2 hbr
